@@ -2,8 +2,9 @@
 2-D mesh for the three irreversibility solvers.  JSON in on stdin, JSON out on stdout.
 
 Observed after every Solve()+Save_Iter():
-  * History solver      : the committed history field (private __old_psiP_e_pg) never decreases
-                          at any Gauss point (exact: it is a maximum) and dominates the current psi+;
+  * History solver      : the driving energy used by the last damage solve of each step (private __psiP_e_pg)
+                          never decreases at any Gauss point between saved steps - EXACT comparison (bitwise >=,
+                          it is a maximum); Save_Iter commits exactly that field (same dtype, same bits);
   * HistoryDamage       : the saved nodal damage never decreases (exact maximum);
   * BoundConstrain      : min(d, 1 - eps) never decreases beyond the lsq_linear tolerance 1e-8;
   * all                 : damage and displacement finite; with zero loading and no notch the damage
@@ -24,34 +25,47 @@ from EasyFEA import Models, Simulations, SolverType  # noqa: E402
 from EasyFEA.Geoms import Domain  # noqa: E402
 
 
-def build(split, regu, solver, notch, n=6):
-    mesh = Domain((0, 0), (1, 1), 1.0 / n).Mesh_2D([], "TRI3", isOrganised=True)
-    mat = Models.Elastic.Isotropic(2, E=210.0, v=0.3, planeStress=False, thickness=1)
-    pfm = Models.PhaseField(mat, split, regu, 2.7e-3, 0.12, solver=solver)
-    simu = Simulations.PhaseField(mesh, pfm)
-    simu.solver = SolverType.scipy
-    return mesh, simu
-
-
-def run_one(split, regu, solver, loads, notch, fails, stats):
-    mesh, simu = build(split, regu, solver, notch)
+def build(split, regu, solver, notch, dim=2, sL=1.0, sE=1.0):
+    """unit square (6x6 TRI3) or unit cube (3x3x3 HEXA8); a change of units multiplies the lengths by sL and the
+    moduli by sE (Gc in J/m^2 by sE*sL, l0 by sL): the damage field must not change, the energies scale by sE."""
+    if dim == 2:
+        mesh = Domain((0, 0), (1, 1), 1.0 / 6).Mesh_2D([], "TRI3", isOrganised=True)
+    else:
+        mesh = Domain((0, 0), (1, 1), 1.0 / 3).Mesh_Extrude([], [0, 0, 1], [3], "HEXA8", isOrganised=True)
     lo = mesh.Nodes_Conditions(lambda x, y, z: y == 0)
     hi = mesh.Nodes_Conditions(lambda x, y, z: y == 1)
     crack = mesh.Nodes_Conditions(lambda x, y, z: (np.abs(y - 0.5) < 1e-9) & (x <= 0.5 + 1e-9))
+    if sL != 1.0:
+        mesh.coord = mesh.coord * sL
+    if dim == 2:
+        mat = Models.Elastic.Isotropic(2, E=210.0 * sE, v=0.3, planeStress=False, thickness=1)
+    else:
+        mat = Models.Elastic.Isotropic(3, E=210.0 * sE, v=0.3)
+    pfm = Models.PhaseField(mat, split, regu, 2.7e-3 * sE * sL, 0.12 * sL, solver=solver)
+    simu = Simulations.PhaseField(mesh, pfm)
+    simu.solver = SolverType.scipy
+    return mesh, simu, lo, hi, crack
+
+
+def run_one(split, regu, solver, loads, notch, fails, stats, dim=2, sL=1.0, sE=1.0, record=None):
+    mesh, simu, lo, hi, crack = build(split, regu, solver, notch, dim, sL, sE)
     eps = float(np.finfo(float).eps)
     prevH = None
     prevD = None
+    prevU = None
     hist = []
-    cfg = dict(split=split, regu=regu, solver=solver, loads=list(loads), notch=notch)
+    cfg = dict(split=split, regu=regu, solver=solver, loads=list(loads), notch=notch, dim=dim, sL=sL, sE=sE)
+    zero_d = ["x", "y"] if dim == 2 else ["x", "y", "z"]
     for k, ud in enumerate(loads):
         simu.Bc_Init()
-        simu.add_dirichlet(lo, [0, 0], ["x", "y"])
-        simu.add_dirichlet(hi, [ud], ["y"])
+        simu.add_dirichlet(lo, [0] * dim, zero_d)
+        simu.add_dirichlet(hi, [ud * sL], ["y"])
         if notch:
             simu.add_dirichlet(crack, [1], ["d"], problemType="damage")
         d_before = np.array(simu.damage, dtype=float).copy() if np.size(simu.damage) == mesh.Nn else np.zeros(mesh.Nn)
         try:
             u, d_ret, conv = simu.Solve(tolConv=1e-1, maxIter=20)
+            used = np.array(getattr(simu, "_PhaseField__psiP_e_pg")).copy()    # driving energy of the last damage solve
             simu.Save_Iter()
         except Exception as ex:  # noqa: BLE001
             fails.append(dict(key="stagger-exception:%s" % solver, what="Solve raised %s: %s (%s)" % (type(ex).__name__, ex, cfg), cfg=cfg, step=k))
@@ -65,13 +79,21 @@ def run_one(split, regu, solver, loads, notch, fails, stats):
         stats["damage_max"] = max(stats.get("damage_max", 0.0), float(d.max()))
         H = None
         if solver == "History":
-            H = np.array(getattr(simu, "_PhaseField__old_psiP_e_pg"), dtype=float).copy()
-            psi = np.array(getattr(simu, "_PhaseField__psiP_e_pg"), dtype=float)
+            committed = np.array(getattr(simu, "_PhaseField__old_psiP_e_pg"))
+            # model: the state after Save_Iter IS the driving field (hist_step H psi), bit for bit
+            if committed.shape != used.shape or committed.dtype != used.dtype or not np.array_equal(committed, used):
+                dev = float(np.abs(committed.astype(float) - used.astype(float)).max()) if committed.shape == used.shape else float("nan")
+                fails.append(dict(key="history-commit-mismatch", what="Save_Iter does not commit the driving energy unchanged (dtype %s vs %s, max deviation %.3e, relative %.3e) at step %d (%s)"
+                                  % (committed.dtype, used.dtype, dev, dev / max(float(np.abs(used).max()), 1e-300), k, cfg), cfg=cfg, step=k))
+            H = used.astype(float)
+            stats["hist_points"] = stats.get("hist_points", 0) + int(H.size)
             if prevH is not None and H.shape == prevH.shape:
+                # exact (bitwise >=): the driving energy of step k against the one of step k-1, every Gauss point
                 dec = float((prevH - H).max())
                 stats["max_H_decrease"] = max(stats["max_H_decrease"], dec)
                 if dec > 0:
-                    fails.append(dict(key="history-decreases", what="history field decreased by %.3e between saved steps %d and %d (%s)" % (dec, k - 1, k, cfg), cfg=cfg, step=k))
+                    fails.append(dict(key="history-decreases", what="driving energy H decreased by %.3e (relative %.3e) at %d of %d Gauss points between saved steps %d and %d (%s)"
+                                      % (dec, float(((prevH - H) / np.maximum(prevH, 1e-300)).max()), int((prevH > H).sum()), H.size, k - 1, k, cfg), cfg=cfg, step=k))
         if solver == "HistoryDamage" and prevD is not None:
             # model: d <- max(d_old, d_solver) ; saved damage must be >= previous saved damage
             dec = float((prevD - d).max())
@@ -97,22 +119,55 @@ def run_one(split, regu, solver, loads, notch, fails, stats):
                               % (np.abs(d[crack] - 1).max(), k, cfg), cfg=cfg, step=k))
         prevH, prevD = H, d
         hist.append(float(d.max()))
+        if record is not None:
+            record.append((d.copy(), None if H is None else H.copy()))
     if solver == "History" and prevH is not None:
         # exact differential test of the Gallina rule hist_step = max(H, psi+): one more evaluation of
         # the driving energy at the final displacement against the committed history
         from EasyFEA.FEM import MatrixType
         ge = mesh.groupElem
-        Hc = np.array(getattr(simu, "_PhaseField__old_psiP_e_pg"), dtype=float).copy()
+        Hc = np.array(getattr(simu, "_PhaseField__old_psiP_e_pg")).copy()
         got = np.array(getattr(simu, "_PhaseField__Calc_psiPlus_e_pg")(ge), dtype=float)
         eps_ = simu._Calc_Epsilon_e_pg(simu.displacement, ge, MatrixType.mass)
         raw = np.array(simu.phaseFieldModel.Calc_psi_e_pg(eps_)[0], dtype=float)
         want = np.maximum(Hc, raw)
         stats["hist_rule_points"] = stats.get("hist_rule_points", 0) + int(want.size)
         stats["hist_rule_points_where_old_wins"] = stats.get("hist_rule_points_where_old_wins", 0) + int((Hc > raw).sum())
-        if got.shape != want.shape or np.abs(got - want).max() != 0:
+        if got.shape != want.shape or not np.array_equal(got, np.asarray(want, dtype=float)):
             fails.append(dict(key="history-rule-mismatch", what="driving energy returned by __Calc_psiPlus_e_pg differs from max(H, psi+) by %.3e (model hist_step) (%s)"
                               % (np.abs(got - want).max() if got.shape == want.shape else float("nan"), cfg), cfg=cfg, step=len(loads)))
     stats["runs"].append(dict(cfg=cfg, dmax=hist))
+
+
+def run_twin(split, regu, solver, loads, sL, sE, fails, stats, dim=2):
+    """the same history in other units: the saved damage must agree to 1e-9 (absolute, d is dimensionless and O(1);
+    1e-6 for the iterative bound-constrained solver), the driving energy to 1e-9 relative after division by sE."""
+    r0, r1 = [], []
+    n0 = len(fails)
+    run_one(split, regu, solver, loads, False, fails, stats, dim, 1.0, 1.0, r0)
+    run_one(split, regu, solver, loads, False, fails, stats, dim, sL, sE, r1)
+    if len(fails) > n0 or len(r0) != len(r1):
+        return
+    cfg = dict(split=split, regu=regu, solver=solver, loads=list(loads), notch=False, dim=dim, twin=[sL, sE])
+    tol_d = 1e-6 if solver == "BoundConstrain" else 1e-9
+    for k, ((d0, H0), (d1, H1)) in enumerate(zip(r0, r1)):
+        dd = float(np.abs(d0 - d1).max())
+        if solver != "BoundConstrain":
+            stats["max_twin_damage_diff"] = max(stats.get("max_twin_damage_diff", 0.0), dd)
+        if solver == "BoundConstrain":
+            # scipy's lsq_linear is called with absolute tolerances: its accuracy depends on the units (observed on the
+            # unchanged tree: up to O(1) differences).  Unit invariance is not part of C17: recorded, not reported.
+            stats["boundconstrain_twin_damage_diff"] = max(stats.get("boundconstrain_twin_damage_diff", 0.0), dd)
+            continue
+        if dd > tol_d:
+            fails.append(dict(key="unit-change:damage:%s" % solver, what="lengths x %g, moduli x %g change the saved damage by %.3e at step %d (%s)" % (sL, sE, dd, k, cfg), cfg=cfg, step=k))
+            return
+        if H0 is not None:
+            ref = float(np.abs(H0).max())
+            dh = float(np.abs(H1 / sE - H0).max())
+            if dh > 1e-9 * ref:
+                fails.append(dict(key="unit-change:history", what="lengths x %g, moduli x %g: driving energy / sE differs by %.3e (max %.3e) at step %d (%s)" % (sL, sE, dh, ref, k, cfg), cfg=cfg, step=k))
+                return
 
 
 def main():
@@ -124,7 +179,10 @@ def main():
     stats = dict(steps=0, runs=[], max_H_decrease=-1.0, max_d_decrease={})
     if inp.get("only"):
         o = inp["only"]
-        run_one(o["split"], o["regu"], o["solver"], o["loads"], o["notch"], fails, stats)
+        if o.get("twin"):
+            run_twin(o["split"], o["regu"], o["solver"], o["loads"], o["twin"][0], o["twin"][1], fails, stats, o.get("dim", 2))
+        else:
+            run_one(o["split"], o["regu"], o["solver"], o["loads"], o["notch"], fails, stats, o.get("dim", 2), o.get("sL", 1.0), o.get("sE", 1.0))
         json.dump(dict(failures=fails, stats=stats), sys.stdout)
         return
     splits = ["Miehe", "Amor"] if tier == "quick" else ["Miehe", "Amor", "Bourdin", "Stress", "He", "AnisotStrain", "Zhang"]
@@ -138,6 +196,20 @@ def main():
                 loads = [a, b, 0.2 * a, 0.0, 0.5 * b, c, 0.1 * c]
                 run_one(split, regu, solver, loads, True, fails, stats)
             run_one("Miehe", regu, solver, [0.0, 0.0, 0.0], False, fails, stats)
+            # histories WITHOUT notch whose damage right-hand side becomes EXACTLY zero: unload to exactly 0 and
+            # hold, stay below the AT1 threshold after damage, start from zero displacement then load
+            a, b = sorted(rng.uniform(0.75, 1.0) * 0.011 for _ in range(2))
+            for loads in ([a, b, 0.0, 0.0, 0.0, 0.6 * a, 1.1 * b],
+                          [b, 0.2 * a, 0.1 * a, 0.0, 0.25 * a, b],
+                          [0.0, 0.0, a, 0.5 * a, 0.0, 0.0, b]):
+                run_one("Miehe", regu, solver, loads, False, fails, stats)
+        # 3-D (unit cube, 27 HEXA8), same kind of history
+        a = rng.uniform(0.75, 1.0) * 0.011
+        run_one("Miehe", "AT2", solver, [a, 0.3 * a, 0.0, 0.0, 1.2 * a, 0.1 * a], False, fails, stats, dim=3)
+        # change of units (powers of two): same damage, energies times sE
+        for regu, sL, sE in (("AT2", 2.0 ** -30, 2.0 ** 20), ("AT1", 2.0 ** 10, 2.0 ** -24)):
+            a = rng.uniform(0.75, 1.0) * 0.011
+            run_twin("Miehe", regu, solver, [a, 0.4 * a, 0.0, 0.0, 1.1 * a], sL, sE, fails, stats)
     # dedupe by key (keep first)
     seen, out = set(), []
     for f in fails:
